@@ -97,6 +97,57 @@ def random_pair(rng, maxlen=200, universe=None):
     return a.astype(U32), b.astype(U32)
 
 
+LADDER = [16, 17, 32, 33, 256, 257, 1024, 1025, 4096, 32768, 32769, 65536, 65537, 100000]
+
+
+def lopsided_pair(rng, long_len=None):
+    """One long and one short strictly increasing array (either order): the shapes that search-based
+    or block-skipping shortcuts target.  The short one may reach beyond / stay inside the long one's
+    range and may share its first / last element."""
+    n = int(long_len or pickone(rng, LADDER))
+    step = int(pickone(rng, [1, 1, 2, 3]))
+    start = int(rng.integers(0, 50))
+    long_ = (start + numpy.cumsum(rng.integers(1, step + 1, size=n))).astype(numpy.uint64)
+    k = int(pickone(rng, [1, 2, 3, 5, 9, 30]))
+    # interior part: members, near members (hits and misses interleaved, adjacent values), or anything
+    inner = int(rng.integers(0, 3))
+    lo_v, hi_v = int(long_[0]), int(long_[-1])
+    pick_from = long_[n // 2:] if rng.random() < 0.3 else long_
+    base = rng.choice(pick_from, size=min(k, len(pick_from)), replace=False)
+    if inner == 0:
+        mid = base
+    elif inner == 1:
+        mid = numpy.concatenate([base, base + 1])
+    else:
+        mid = rng.integers(lo_v, hi_v + 1, size=k).astype(numpy.uint64)
+    mid = mid[(mid > lo_v) & (mid < hi_v)]
+    # how the short array's ends relate to the long one's: below / equal / above, at either end
+    low = int(rng.integers(0, 4))
+    high = int(rng.integers(0, 4))
+    parts = [mid]
+    if low == 0 and lo_v > 0:
+        parts.append([lo_v - 1])
+    elif low == 1:
+        parts.append([lo_v])
+    if high == 0:
+        parts.append([hi_v + int(pickone(rng, [1, 2, 7]))])
+    elif high == 1:
+        parts.append([hi_v])
+    short = numpy.unique(numpy.concatenate([numpy.asarray(p, dtype=numpy.uint64) for p in parts]))
+    if len(short) == 0:
+        short = numpy.array([hi_v], dtype=numpy.uint64)
+    a, b = long_.astype(U32), numpy.asarray(short, dtype=numpy.uint64).astype(U32)
+    return (a, b) if rng.random() < 0.5 else (b, a)
+
+
+def shared_base_views(rng, n=None):
+    """Two different strictly increasing views of ONE buffer that start at the same address and have
+    the same length (different steps): equal by address and length, different by content."""
+    n = int(n or rng.integers(2, 40))
+    base = numpy.cumsum(rng.integers(1, 4, size=2 * n + 2)).astype(U32)
+    return base[0:n], base[0:2 * n:2]
+
+
 def pickone(rng, seq):
     return seq[int(rng.integers(0, len(seq)))]
 
